@@ -9,6 +9,7 @@
 mod keys;
 mod model;
 mod oracle;
+mod rich;
 mod workload;
 
 use ckb_indexer::verif::VerifIndexer;
@@ -24,7 +25,7 @@ use vnode::consensus::{self, ChainParams, EpochMode};
 use vnode::model::{h, hx};
 use vnode::treegen::{TreeCfg, TreeGen};
 
-const RULE: &str = "generated chain histories (forks, reorgs up to the retention depth, outputs sharing / differing in lock and type scripts with common args prefixes and trailing zero bytes, data of 0..50 bytes, cells created and consumed in one block, the same transaction at different heights on different forks) are followed by the real indexer with the decision rule of IndexerSyncService::try_loop_sync; after every append / rollback and at every followed tip get_indexer_tip, get_cells, get_cells_capacity and get_transactions (ungrouped / grouped) are compared with direct filters over a model folded from the harness's own block copies, for generated search keys (every script of the model plus absent / derived ones; lock / type; exact / prefix / default / partial; every filter kind with boundaries on real values; with_data; asc / desc; page sizes 1,2,3,7 with cursors: concatenated pages == full answer); append(b);rollback() must restore the raw key-value store and every answer; distinct = hash(method, search key JSON, indexer tip)";
+const RULE: &str = "generated chain histories (forks, reorgs up to the retention depth, outputs sharing / differing in lock and type scripts with common args prefixes and trailing zero bytes, data of 0..50 bytes, cells created and consumed in one block, the same transaction at different heights on different forks) are followed by the real indexer with the decision rule of IndexerSyncService::try_loop_sync; after every append / rollback and at every followed tip get_indexer_tip, get_cells, get_cells_capacity and get_transactions (ungrouped / grouped) are compared with direct filters over a model folded from the harness's own block copies, for generated search keys (every script of the model plus absent / derived ones; lock / type; exact / prefix / default / partial; every filter kind with boundaries on real values; with_data; asc / desc; page sizes 1,2,3,7 with cursors: concatenated pages == full answer); append(b);rollback() must restore the raw key-value store and every answer; distinct = hash(method, search key JSON, indexer tip). The rich-indexer (ckb-rich-indexer: AsyncRichIndexer over sqlx + in-memory SQLite, hook H8b) follows a subset of the same histories with the same rule and is judged by the same model filters under its documented semantics (partial script search, all filters in get_transactions, opaque cursors); append(b);rollback() must restore every answer; counters rich.*, distinct = hash(rich, method, search key JSON, indexer tip)";
 
 fn panic_store() -> &'static Mutex<BTreeMap<String, String>> {
     static S: std::sync::OnceLock<Mutex<BTreeMap<String, String>>> = std::sync::OnceLock::new();
@@ -56,6 +57,18 @@ struct Hist {
     models: VecDeque<(H, Arc<Model>)>,
     keys_per_tip: usize,
     keys_per_step: usize,
+    stopped: bool,
+    /// the rich-indexer following the same history (a subset of the histories)
+    rich: Option<RichHist>,
+}
+
+/// State of the rich-indexer (SQL) part of one history.
+struct RichHist {
+    ri: rich::RichIdx,
+    rng: Rng,
+    keys_per_tip: usize,
+    keys_per_step: usize,
+    rollback_keys: usize,
     stopped: bool,
 }
 
@@ -220,7 +233,247 @@ impl Hist {
     /// Follow the builder's main chain with the decision rule of
     /// `IndexerSyncService::try_loop_sync`: tip (n, h): block n+1 of the main chain missing =>
     /// stop; its parent is h => append; otherwise rollback. No tip => append block 0.
-    fn sync(&mut self, r: &mut Report, keyset: &mut HashSet<u64>) {
+    fn sync(&mut self, r: &mut Report, keyset: &mut HashSet<u64>, rkeys: &mut HashSet<u64>) {
+        self.sync_rocksdb(r, keyset);
+        if self.rich.is_some() {
+            let res = std::panic::catch_unwind(std::panic::AssertUnwindSafe(|| self.sync_rich(r, rkeys)));
+            if res.is_err() {
+                let msg = panic_store().lock().unwrap().remove(&thread_key()).unwrap_or_default();
+                if msg.contains("util/rich-indexer/") {
+                    r.violation(
+                        &format!("rich.indexer.panic@{}", msg.split(" :: ").next().unwrap_or("?")),
+                        format!("the rich-indexer panicked: {msg}"),
+                        json!({"history": self.info, "panic": msg}),
+                    );
+                } else {
+                    r.inconclusive(&format!("harness panic in the rich-indexer part of history {}: {msg}", self.hi));
+                }
+                self.rich = None;
+            }
+        }
+    }
+
+    /// The rich-indexer answers at its current tip vs the model of that tip.
+    fn rich_oracle(&mut self, rh: &mut RichHist, r: &mut Report, rkeys: &mut HashSet<u64>, n_keys: usize) {
+        let tip = match rh.ri.tip() {
+            Ok(Some((_, t))) => t,
+            Ok(None) => return,
+            Err(e) => {
+                r.violation("rich.get_indexer_tip.unexpected_error", format!("get_indexer_tip failed: {e}"), json!({"history": self.info, "error": e}));
+                rh.stopped = true;
+                return;
+            }
+        };
+        if !self.tg.rc.contains(&tip) {
+            r.violation("rich.indexer_tip.unknown_block", "the rich-indexer reports a tip that was never appended (or an uncle)".into(),
+                json!({"history": self.info, "tip": hx(&tip)}));
+            rh.stopped = true;
+            return;
+        }
+        let m = self.model_at(&tip);
+        let pool = keys::script_pool(&m);
+        let mut krng = rh.rng.fork(0x6b);
+        let ks = keys::gen_keys_for(&mut krng, &m, &pool, n_keys, true);
+        let mut ctx = rich::RCtx { ri: &rh.ri, m: &m, r, rng: &mut krng, hist: &self.info, keyset: rkeys };
+        ctx.check_tip();
+        for (method, sk) in &ks {
+            ctx.check(*method, sk);
+        }
+    }
+
+    /// `append(b); rollback()` restores every answer of the rich-indexer.
+    fn rich_rollback_exactness(&mut self, rh: &mut RichHist, b: &BlockView, r: &mut Report) {
+        let Ok(Some((_, tip))) = rh.ri.tip() else { return };
+        if !self.tg.rc.contains(&tip) {
+            return;
+        }
+        let m = self.model_at(&tip);
+        let pool = keys::script_pool(&m);
+        let mut krng = rh.rng.fork(0x72);
+        let mut ks = keys::gen_keys_for(&mut krng, &m, &pool, rh.rollback_keys, true);
+        // plus keys aimed at what the block touches: the scripts of its outputs and of the
+        // cells it consumes (these are the answers `append` changes and `rollback` must restore)
+        let mut touched: Vec<(bool, model::Scr)> = vec![];
+        for tx in b.transactions().iter() {
+            for out in tx.outputs().into_iter() {
+                touched.push((true, model::Scr::from_packed(&out.lock())));
+                if let Some(t) = out.type_().to_opt() {
+                    touched.push((false, model::Scr::from_packed(&t)));
+                }
+            }
+            for op in tx.input_pts_iter() {
+                let idx: u32 = op.index().into();
+                if let Some(c) = m.live.get(&(h(&op.tx_hash()), idx)) {
+                    touched.push((true, c.lock.clone()));
+                    if let Some(t) = &c.type_ {
+                        touched.push((false, t.clone()));
+                    }
+                }
+            }
+        }
+        touched.sort();
+        touched.dedup();
+        for _ in 0..touched.len().min(3) {
+            let (is_lock, script) = krng.pick(&touched).clone();
+            let method = *krng.pick(&[keys::Method::Cells, keys::Method::Txs, keys::Method::Capacity]);
+            let mode = *krng.pick(&[Some(model::Mode::Exact), Some(model::Mode::Prefix), None]);
+            let group = if method == keys::Method::Txs && mode == Some(model::Mode::Exact) && krng.bool() { Some(true) } else { None };
+            ks.push((method, model::SK { script, is_lock, mode, filter: None, with_data: None, group }));
+        }
+        let c0 = rh.ri.row_counts();
+        let a0 = rich::snapshot_answers(&rh.ri, &ks);
+        if let Err(e) = rh.ri.append(b) {
+            r.violation("rich.append.error", format!("append(#{}) failed: {e}", b.number()), json!({"history": self.info, "block": format!("#{} 0x{}", b.number(), vbase::hex(b.hash().as_slice())), "error": e}));
+            rh.stopped = true;
+            return;
+        }
+        if let Err(e) = rh.ri.rollback() {
+            r.violation("rich.rollback.error", format!("rollback() of #{} failed: {e}", b.number()), json!({"history": self.info, "block": format!("#{} 0x{}", b.number(), vbase::hex(b.hash().as_slice())), "error": e}));
+            rh.stopped = true;
+            return;
+        }
+        let a1 = rich::snapshot_answers(&rh.ri, &ks);
+        let c1 = rh.ri.row_counts();
+        r.count("rich.rollback_checks");
+        r.count_n("rich.rollback_checks.answers_compared", a0.len() as u64);
+        r.eval();
+        r.count("rich.evaluations");
+        for ((t, n0), (_, n1)) in c0.iter().zip(c1.iter()) {
+            if n0 != n1 {
+                // rows are not answers: observed, not demanded
+                r.count(&format!("rich.obs.row_count_differs_after_append_rollback.{t}"));
+            }
+        }
+        if let Some((i, what)) = rich::first_difference(&a0, &a1) {
+            let key = rich::key_of_entry(&ks, i);
+            r.violation(
+                &format!("rich.rollback.answers_not_restored@{what}"),
+                format!("an answer given before append(#{}) differs after append;rollback()", b.number()),
+                json!({"indexer": "ckb-rich-indexer (in-memory SQLite)", "history": self.info,
+                       "indexer_tip_before": format!("#{} 0x{}", self.tg.rc.get(&tip).number, vbase::hex(&tip)),
+                       "block": format!("#{} 0x{}", b.number(), vbase::hex(b.hash().as_slice())),
+                       "method": key.map(|k| k.0.name()), "search_key": key.map(|k| keys::to_json(&k.1)),
+                       "answer": a0.get(i).map(|x| x.0.clone()), "before": a0.get(i).map(|x| x.1.clone()), "after": a1.get(i).map(|x| x.1.clone()),
+                       "row_counts_before": c0.iter().map(|(t, n)| (t.to_string(), *n)).collect::<BTreeMap<_, _>>(),
+                       "row_counts_after": c1.iter().map(|(t, n)| (t.to_string(), *n)).collect::<BTreeMap<_, _>>()}),
+            );
+        }
+    }
+
+    /// The rich-indexer follows the builder's main chain with the same decision rule (its tip
+    /// is read through get_indexer_tip, as `RichIndexer::tip()` does).
+    fn sync_rich(&mut self, r: &mut Report, rkeys: &mut HashSet<u64>) {
+        let Some(mut rh) = self.rich.take() else { return };
+        if !rh.stopped {
+            let t0 = Instant::now();
+            self.sync_rich_inner(&mut rh, r, rkeys);
+            r.count_n("rich.cost_ms.total", t0.elapsed().as_millis() as u64);
+            if rh.ri.idle_gap_seen() {
+                r.inconclusive("rich: more than 20 s between two operations on one in-memory database (the pool's idle reaper may have dropped it)");
+                rh.stopped = true;
+            }
+        }
+        self.rich = Some(rh);
+    }
+
+    fn sync_rich_inner(&mut self, rh: &mut RichHist, r: &mut Report, rkeys: &mut HashSet<u64>) {
+        let main_tip = self.tg.tip();
+        let mut rolled = 0u64;
+        let mut steps = 0u64;
+        loop {
+            steps += 1;
+            if steps > 2_000 {
+                r.inconclusive("harness: rich sync loop did not terminate");
+                break;
+            }
+            let tip = match rh.ri.tip() {
+                Ok(t) => t,
+                Err(e) => {
+                    r.violation("rich.get_indexer_tip.unexpected_error", format!("get_indexer_tip failed: {e}"), json!({"history": self.info, "error": e}));
+                    rh.stopped = true;
+                    return;
+                }
+            };
+            let blk = |b: &BlockView| format!("#{} 0x{}", b.number(), vbase::hex(b.hash().as_slice()));
+            match tip {
+                None => {
+                    let g = self.block(&self.tg.rc.genesis.clone());
+                    if let Err(e) = rh.ri.append(&g) {
+                        r.violation("rich.append.error", format!("append(genesis) failed: {e}"), json!({"history": self.info, "error": e}));
+                        rh.stopped = true;
+                        return;
+                    }
+                    r.count("rich.blocks_appended");
+                }
+                Some((_, hash)) if !self.tg.rc.contains(&hash) => {
+                    r.violation("rich.indexer_tip.unknown_block", "the rich-indexer reports a tip that was never appended (or an uncle)".into(),
+                        json!({"history": self.info, "tip": hx(&hash)}));
+                    rh.stopped = true;
+                    return;
+                }
+                Some((n, hash)) => match self.tg.rc.ancestor_at(&main_tip, n + 1) {
+                    None => break,
+                    Some(bh) => {
+                        let b = self.block(&bh);
+                        if h(&b.parent_hash()) == hash {
+                            if rh.rng.chance(250, 1000) {
+                                let t0 = Instant::now();
+                                self.rich_rollback_exactness(rh, &b, r);
+                                r.count_n("rich.cost_ms.rollback_checks", t0.elapsed().as_millis() as u64);
+                                if rh.stopped {
+                                    return;
+                                }
+                            }
+                            let t0 = Instant::now();
+                            let res = rh.ri.append(&b);
+                            r.count_n("rich.cost_us.append", t0.elapsed().as_micros() as u64);
+                            if let Err(e) = res {
+                                r.violation("rich.append.error", format!("append({}) failed: {e}", blk(&b)), json!({"history": self.info, "block": blk(&b), "error": e}));
+                                rh.stopped = true;
+                                return;
+                            }
+                            r.count("rich.blocks_appended");
+                            if b.transactions().len() > 1 {
+                                r.count("rich.blocks_appended_with_transactions");
+                            }
+                        } else {
+                            if let Err(e) = rh.ri.rollback() {
+                                r.violation("rich.rollback.error", format!("rollback() at tip #{n} failed: {e}"), json!({"history": self.info, "tip": hx(&hash), "error": e}));
+                                rh.stopped = true;
+                                return;
+                            }
+                            r.count("rich.blocks_rolled_back");
+                            rolled += 1;
+                        }
+                    }
+                },
+            }
+            let k = rh.keys_per_step;
+            let t0 = Instant::now();
+            self.rich_oracle(rh, r, rkeys, k);
+            r.count_n("rich.cost_ms.oracle", t0.elapsed().as_millis() as u64);
+            if rh.stopped {
+                return;
+            }
+        }
+        if rolled > 0 {
+            r.count("rich.reorgs_followed");
+            r.count(&format!("rich.reorg_depth.{}", if rolled > 9 { "10+".to_string() } else { rolled.to_string() }));
+            if rolled > self.keep_num {
+                r.count("rich.reorgs_deeper_than_the_rocksdb_retention");
+            }
+        }
+        match rh.ri.tip() {
+            Ok(Some((_, t))) if t == main_tip => r.count("rich.tips_followed"),
+            _ => r.count("rich.rounds_with_indexer_on_stale_fork"),
+        }
+        let k = rh.keys_per_tip;
+        let t0 = Instant::now();
+        self.rich_oracle(rh, r, rkeys, k);
+        r.count_n("rich.cost_ms.oracle", t0.elapsed().as_millis() as u64);
+    }
+
+    fn sync_rocksdb(&mut self, r: &mut Report, keyset: &mut HashSet<u64>) {
         let main_tip = self.tg.tip();
         let mut rolled = 0u64;
         let mut appended = 0u64;
@@ -297,7 +550,36 @@ impl Hist {
     }
 }
 
-fn run_history(seed: u64, hi: u64, tier: Tier, deadline: Instant, r: &mut Report, keyset: &mut HashSet<u64>) {
+/// Which histories are also followed by the rich-indexer: residues mod 9 spread them evenly over
+/// 8 (quick) / 10 (thorough) workers: quick 9k+5, thorough 9k+5 and 9k; 9k+5 with even k are
+/// histories with a reorg deeper than the RocksDB indexer's retention (the rich-indexer keeps
+/// everything: still asserted). A query costs ~1 ms on a busy machine (round trips to the
+/// SQLite worker thread), ~100 times a RocksDB-indexer query: hence the subset.
+fn rich_history(hi: u64, args: &Args) -> bool {
+    if boundary_history(hi, args) {
+        return true;
+    }
+    let every = args.get_u64("rich_mod", 9);
+    let n = args.get_u64("rich_per_mod", args.tier.pick(1, 2));
+    every > 0 && [5u64, 0, 2, 7, 4, 1, 6, 3, 8].iter().take(n as usize).any(|x| hi % every == *x % every)
+}
+
+fn n_histories(args: &Args) -> u64 {
+    args.get_u64("histories", args.tier.pick(72, 900))
+}
+
+/// Histories appended after the standard ones (which stay exactly what they were before the
+/// rich-indexer part existed): both indexers follow them, the workload also uses lock / type
+/// args and data made of 0xff bytes.
+fn n_boundary_histories(args: &Args) -> u64 {
+    args.get_u64("boundary_histories", args.tier.pick(2, 20))
+}
+
+fn boundary_history(hi: u64, args: &Args) -> bool {
+    hi >= n_histories(args)
+}
+
+fn run_history(seed: u64, hi: u64, tier: Tier, args: &Args, deadline: Instant, r: &mut Report, keyset: &mut HashSet<u64>, rkeys: &mut HashSet<u64>) {
     let mut rng = Rng::new(seed.wrapping_mul(0x9E37_79B9_7F4A_7C15) ^ (hi + 1).wrapping_mul(0xD1B5_4A32_D192_ED03));
     // every sixth history also makes reorgs deeper than the retention: observation only
     let deep = hi % 6 == 5;
@@ -325,13 +607,13 @@ fn run_history(seed: u64, hi: u64, tier: Tier, deadline: Instant, r: &mut Report
     let dir = vnode::node::scratch_dir().join(format!("indexer-{hi}"));
     let idx = VerifIndexer::new(&dir, keep_num, prune_interval);
     let info = json!({"history": hi, "window": [params.window.0, params.window.1], "keep_num": keep_num, "prune_interval": prune_interval,
-                      "planned_blocks": n_blocks, "fork_pm": fork_pm, "reorgs_deeper_than_retention": deep});
+                      "planned_blocks": n_blocks, "fork_pm": fork_pm, "reorgs_deeper_than_retention": deep, "workload_with_0xff_boundary_values": boundary_history(hi, args)});
     let mut hst = Hist {
         hi,
         tg,
         idx,
         rng: rng.fork(1),
-        wl: workload::Workload::new(seed ^ (hi << 8)),
+        wl: if boundary_history(hi, args) { workload::Workload::new_boundary(seed ^ (hi << 8)) } else { workload::Workload::new(seed ^ (hi << 8)) },
         keep_num,
         prune_interval,
         hi_water: 0,
@@ -341,10 +623,30 @@ fn run_history(seed: u64, hi: u64, tier: Tier, deadline: Instant, r: &mut Report
         keys_per_tip: tier.pick(40, 48),
         keys_per_step: tier.pick(8, 10),
         stopped: false,
+        rich: None,
     };
     r.count("histories");
+    if boundary_history(hi, args) {
+        r.count("histories_with_0xff_boundary_values");
+    }
+    if rich_history(hi, args) {
+        match rich::RichIdx::new() {
+            Ok(ri) => {
+                r.count("rich.histories");
+                hst.rich = Some(RichHist {
+                    ri,
+                    rng: rng.fork(0x5243),
+                    keys_per_tip: args.get_u64("rich_keys_per_tip", tier.pick(8, 16)) as usize,
+                    keys_per_step: args.get_u64("rich_keys_per_step", tier.pick(2, 4)) as usize,
+                    rollback_keys: 4,
+                    stopped: false,
+                });
+            }
+            Err(e) => r.inconclusive(&format!("harness: cannot open an in-memory rich-indexer store: {e}")),
+        }
+    }
     LEFT_RETENTION.with(|c| c.set(false));
-    hst.sync(r, keyset);
+    hst.sync(r, keyset, rkeys);
     let mut made = 0u64;
     let mut deep_done = false;
     let mut quiet_until = 0u64;
@@ -402,7 +704,17 @@ fn run_history(seed: u64, hi: u64, tier: Tier, deadline: Instant, r: &mut Report
                 }
             }
         }
-        hst.sync(r, keyset);
+        hst.sync(r, keyset, rkeys);
+    }
+    if let Some(rh) = &hst.rich {
+        if rh.stopped {
+            r.count("rich.histories_stopped_early");
+        }
+        if r.counter("rich.sampled_histories") < 1 {
+            r.count("rich.sampled_histories");
+            r.sample(json!({"indexer": "rich", "history": hst.info, "blocks_generated": made, "rich_indexer_tip": rh.ri.tip().ok().flatten().map(|(n, x)| format!("#{n} {}", hx(&x))),
+                            "rows": rh.ri.row_counts().iter().map(|(t, n)| (t.to_string(), *n)).collect::<BTreeMap<_, _>>()}));
+        }
     }
     if hi < 2 {
         r.sample(json!({"history": hst.info, "blocks_generated": made, "indexer_tip": hst.idx_tip().map(|(n, x)| format!("#{n} {}", hx(&x))),
@@ -411,15 +723,16 @@ fn run_history(seed: u64, hi: u64, tier: Tier, deadline: Instant, r: &mut Report
     let _ = hst.hi;
 }
 
-fn worker(seed: u64, tier: Tier, args: &Args, his: Vec<u64>, deadline: Instant) -> (Value, HashSet<u64>) {
+fn worker(seed: u64, tier: Tier, args: &Args, his: Vec<u64>, deadline: Instant) -> (Value, HashSet<u64>, HashSet<u64>) {
     let mut r = Report::new("C18", "exploration", args, RULE);
     let mut keyset = HashSet::new();
+    let mut rkeys = HashSet::new();
     for hi in his {
         if Instant::now() > deadline {
             r.count("histories_skipped_by_budget");
             continue;
         }
-        let res = std::panic::catch_unwind(std::panic::AssertUnwindSafe(|| run_history(seed, hi, tier, deadline, &mut r, &mut keyset)));
+        let res = std::panic::catch_unwind(std::panic::AssertUnwindSafe(|| run_history(seed, hi, tier, args, deadline, &mut r, &mut keyset, &mut rkeys)));
         if res.is_err() {
             let msg = panic_store().lock().unwrap().remove(&thread_key()).unwrap_or_default();
             let indexer_code = msg.contains("/repo/util/indexer") || msg.contains("/repo/util/indexer-sync");
@@ -438,11 +751,13 @@ fn worker(seed: u64, tier: Tier, args: &Args, his: Vec<u64>, deadline: Instant) 
             }
         }
     }
-    (r.to_json(&KnownFindings::load()), keyset)
+    (r.to_json(&KnownFindings::load()), keyset, rkeys)
 }
 
 fn main() {
     let args = Args::parse();
+    // (also points TMPDIR at the RAM scratch: SQLXPool::connect unpacks its migration files into a
+    // tempfile::tempdir())
     let _ = vnode::node::scratch_dir();
     vnode::node::set_time(ChainParams::default().genesis_timestamp + 3_000_000_000);
     std::panic::set_hook(Box::new(|info| {
@@ -452,12 +767,13 @@ fn main() {
         panic_store().lock().unwrap().insert(thread_key(), format!("{loc} :: {msg}"));
     }));
     let mut report = Report::new("C18", "exploration", &args, RULE);
-    let n_hist = args.get_u64("histories", args.tier.pick(72, 900));
+    let n_hist = n_histories(&args) + n_boundary_histories(&args);
     let workers = args.get_u64("workers", args.tier.pick(8, 10)).max(1);
     let deadline = Instant::now() + Duration::from_secs(args.get_u64("budget_s", args.tier.pick(55, 780)));
     let only: Option<u64> = args.extra.get("only").and_then(|s| s.parse().ok());
     let mut keyset: HashSet<u64> = HashSet::new();
-    let results: Vec<(Value, HashSet<u64>)> = std::thread::scope(|s| {
+    let mut rkeys: HashSet<u64> = HashSet::new();
+    let results: Vec<(Value, HashSet<u64>, HashSet<u64>)> = std::thread::scope(|s| {
         let mut hs = vec![];
         for w in 0..workers {
             let his: Vec<u64> = (0..n_hist).filter(|hi| hi % workers == w && only.map(|o| o == *hi).unwrap_or(true)).collect();
@@ -466,12 +782,38 @@ fn main() {
         }
         hs.into_iter().map(|j| j.join().expect("worker")).collect()
     });
-    for (j, ks) in results {
+    for (j, ks, rks) in results {
         report.merge_json(&j);
         keyset.extend(ks);
+        rkeys.extend(rks);
     }
     report.note("distinct_search_keys", json!(keyset.len()));
-    report.note("rich_indexer", json!("NOT covered: ckb-rich-indexer's AsyncRichIndexer / SQLXPool cannot be constructed from outside the crate (private modules `indexer` and `store`; AsyncRichIndexer is pub(crate) and only re-exported under cfg(test)); a #[cfg(ckb_verif)] hook is needed"));
+    report.note("rich_distinct_search_keys", json!(rkeys.len()));
+    report.count_n("rich.distinct_search_keys", rkeys.len() as u64);
+    report.note("rich_indexer", json!("covered (hook H8b): ckb_rich_indexer::verif::VerifRichIndexer (AsyncRichIndexer over an SQLXPool on a private in-memory SQLite database) follows a subset of the same histories (quick: hi mod 9 = 5; thorough: hi mod 9 in {0, 5}; plus the added histories with 0xff boundary values) with the same decision rule and is judged by the same model filters through AsyncRichIndexerHandle; counters `rich.*`, violation signatures `rich.*`"));
+    for c in [
+        "rich.histories", "rich.blocks_appended", "rich.blocks_appended_with_transactions", "rich.blocks_rolled_back", "rich.reorgs_followed", "rich.rollback_checks", "rich.tips_followed",
+        "rich.queries.get_indexer_tip", "rich.queries.get_cells.exact", "rich.queries.get_cells.prefix", "rich.queries.get_cells.default", "rich.queries.get_cells.partial",
+        "rich.queries.get_cells_capacity.exact", "rich.queries.get_cells_capacity.prefix", "rich.queries.get_cells_capacity.partial",
+        "rich.queries.get_transactions.exact", "rich.queries.get_transactions.prefix", "rich.queries.get_transactions.partial",
+        "rich.queries.grouped", "rich.queries.with_data_false", "rich.queries.order_desc", "rich.queries.by_lock", "rich.queries.by_type",
+        "rich.queries.cells.filter.script", "rich.queries.cells.filter.script_len_range", "rich.queries.cells.filter.output_data.prefix", "rich.queries.cells.filter.output_data.exact",
+        "rich.queries.cells.filter.output_data.partial", "rich.queries.cells.filter.output_data_len_range", "rich.queries.cells.filter.output_capacity_range", "rich.queries.cells.filter.block_range",
+        "rich.queries.get_transactions.filter.script", "rich.queries.get_transactions.filter.script_len_range", "rich.queries.get_transactions.filter.output_data_len_range",
+        "rich.queries.get_transactions.filter.output_capacity_range", "rich.queries.get_transactions.filter.block_range",
+        "rich.queries.filter.none", "rich.walks_with_several_pages",
+    ] {
+        report.require(c, 1);
+    }
+    report.require("rich.evaluations", args.tier.pick(2_000, 20_000));
+    report.require("rich.distinct_search_keys", args.tier.pick(500, 5_000));
+    report.require("rich.blocks_appended", args.tier.pick(100, 1_000));
+    report.require("rich.blocks_appended_with_transactions", args.tier.pick(30, 300));
+    report.require("rich.blocks_rolled_back", args.tier.pick(5, 50));
+    report.require("rich.reorgs_followed", args.tier.pick(3, 30));
+    report.require("rich.rollback_checks", args.tier.pick(10, 100));
+    report.require("rich.pages_walked", args.tier.pick(300, 3_000));
+    report.require("rich.answers.nonempty", args.tier.pick(200, 2_000));
     for c in [
         "histories", "blocks_appended", "blocks_rolled_back", "reorgs_followed", "rollback_checks", "tips_followed",
         "queries.get_indexer_tip", "queries.get_cells.exact", "queries.get_cells.prefix", "queries.get_cells.default",
@@ -499,6 +841,11 @@ fn main() {
     report.assume("`script_len_range` is taken over len(code_hash)+len(hash_type)+len(args) of the filter-side script, 0 when the cell has no type script (observed; the documentation does not define it)");
     report.assume("script_search_mode=partial may be rejected by this module (documented as prefix | exact); if it is answered the answer must be the partial match");
     report.assume("the driver mirrors IndexerSyncService::try_loop_sync: when the main chain has no block at indexer_tip+1 the indexer stays where it is (possibly on a stale fork); answers are then compared with the model of the indexer's own tip");
+    report.assume("rich-indexer: documented semantics of /repo/rpc/src/module/rich_indexer.rs and /repo/util/rich-indexer/README.md: script_search_mode partial supported by all three methods; get_transactions takes every filter kind of get_cells, applied to the cell that appears (output, or the consumed cell of an input), block_range over the block of the transaction in which it appears; `filter.script` of get_transactions is matched as a prefix like in get_cells (the documentation says only \"filter cells by type script\"; the code comments \"default prefix search\"; the RocksDB indexer matches it exactly)");
+    report.assume("rich-indexer: cursors are opaque row ids: only `concatenated pages == full answer` is demanded; get_cells ascending order = (block number, tx index, output index) over the whole answer (observed: ORDER BY output.id); get_transactions: transactions ascending by (block number, tx index), the order of the entries of one transaction (ungrouped) and of the cells of one grouped entry is not defined (UNION ALL / GROUP_CONCAT) and is compared as a set; desc = the same entries with the transactions in the opposite order");
+    report.assume("rich-indexer: get_cells_capacity answers null when no live cell matches (SUM over no rows); accepted (no capacity is claimed), counted as rich.obs.get_cells_capacity_null_when_no_cell_matches; a {capacity: 0, tip} answer is accepted as well");
+    report.assume("rich-indexer: nothing is pruned, so there is no retention: append;rollback exactness and the answers after reorgs of any depth are asserted; append(b);rollback() must restore the answers (content; not cursors, not row ids, not row counts) for generated keys plus keys on the scripts the block touches");
+    report.assume("SQLite (in-memory, one connection per indexer) transaction atomicity is trusted; PostgreSQL-specific SQL branches are not exercised");
     report.assume("ConsumedOutPoint rows above the indexer tip (rollback() restores the consumed cell but leaves the row behind) are invisible to every query, rewritten by the next block of that height and removed by a later prune: excluded from the byte-exact store comparison and counted as an observation");
     let code = report.finish(None);
     vnode::node::exit(code)
